@@ -183,7 +183,7 @@ static void print_plan(void)
 static void print_state(void)
 {
   rate_t * p = R0(); int i;
-  if (!p) { printf(" ST none"); return; }
+  if (!p) { printf(" ST none pfl=%d err=%d", S? S->flushing : 0, S && S->error != 0); return; }
   printf(" ST in=%lld out=%lld fl=%d occ=", (long long)p->samples_in, (long long)p->samples_out, p->flushing);
   for (i = 0; i <= p->num_stages; ++i) printf("%d,", fifo_occupancy(&p->stages[i].fifo));
   printf(" clk=");
@@ -393,6 +393,11 @@ int main(void)
         run_process(0, 0, 0, 0, ol, t + 2, nt - 2, 1);
         if (total_out == before || S->error) ++empty;
       }
+    }
+    else if (!strcmp(t[0], "ratio") && nt >= 3) {   /* ratio r slew: the idiom of soxr.h, soxr_set_error(p, soxr_set_io_ratio(p, r, slew)) */
+      soxr_error_t e = soxr_set_io_ratio(S, strtod(t[1], 0), (size_t)strtoull(t[2], 0, 10));
+      soxr_set_error(S, e);
+      printf("E ratio %s\n", e? e : "ok");
     }
     else if (!strcmp(t[0], "eoi")) do_eoi();     /* end of input signalled by a call with neither an input nor an output buffer */
     else if (!strcmp(t[0], "eoistyle") && nt >= 2) eoi_style = atoi(t[1]);
